@@ -176,6 +176,8 @@ impl World {
                 Err(p) => Ret::Panic(p),
             },
             Call::Reload { dst } => {
+                // one checkpoint path per process, overwritten by every save() and never removed in between (as a long-lived
+                // checkpoint file is): whatever an earlier, possibly longer image left behind is still there when save() runs
                 let path = self.scratch.join(format!("img-{}.sodg", std::process::id()));
                 let r = match self.g(h).save(&path) {
                     Err(p) => Ret::Panic(p),
@@ -189,7 +191,6 @@ impl World {
                         }
                     },
                 };
-                let _ = std::fs::remove_file(&path);
                 r
             }
             Call::Slice { dst, v, p } => match self.g(h).slice(*v, p) {
